@@ -115,7 +115,9 @@ def run(ctx):
                     nplanted += 1
                     vecs.append((list(vec[:4]), list(vec[4:]), nplanted))
         for S, E, k in vecs:
-            paths = [b'/tw%d' % i for i in range(k % 3)]
+            # (paths that CONTAIN the call's own name: only the call name gets the suffix)
+            bn = base[4:].replace('sys_', '').encode()
+            paths = [b'/tw%d' % i if k % 2 else b'/etc/%sldap/%s.d/%s' % (bn, bn, bn) for i in range(k % 3)]
 
             def rend(n):
                 try:
@@ -141,6 +143,8 @@ def run(ctx):
                 ctx.violation('C17/twins-differ@%s' % base, '%s renders %r, %s renders %r' % (base, a, twin, b),
                               {'kind': 'tables', 'entry': base, 'start': [hex(x) for x in S], 'end': [hex(x) for x in E]})
                 break
+    from .render import report_unstable
+    report_unstable(ctx, pr)
     ctx.sample({'twin_pairs': pairs[:5], 'counts (names, table names, twins, functions)': counts[0][1:]})
     ctx.extra['code'] = {'decoder_names': counts[0][1], 'table_names': counts[0][2], 'twin_pairs': len(pairs),
                          'twin_renderings_compared': ncmp, 'of_which_planted': nplanted, 'decoder_functions': counts[0][4]}
